@@ -26,11 +26,16 @@ EXPLAIN = "c04_explain"
 CASES_PER_FILE = 60
 CASE_TIMEOUT = 60
 TIERS = {"quick": {"n": 450, "search_n": 300}, "thorough": {"n": 9000, "search_n": 2000}}
-RULE = ("one case = one (configuration, initial directory, body, fault schedule) of atomic_save/AtomicSaver, run once "
+RULE = ("thorough tier: first a complete grid of 8 flag combinations x 2 permission settings x destination absent/present "
+        "x part file absent/stale/hard-linked x 3 body shapes x text/binary (480 cases), "
+        "then random cases; one case = one (configuration, initial directory, body, fault schedule) of atomic_save/AtomicSaver, run once "
         "to completion and once more per crash point k (child killed with os._exit immediately before the k-th "
         "state-changing primitive: unlink/open/fdopen/chmod/write/flush/fsync/close/rename/link), the real directory "
         "(names, bytes, modes) scanned after each; a quarter of the cases additionally get 1-3 real SIGKILLs at "
-        "arbitrary instants of a slowed-down run (the directory must equal the model's at SOME crash point); non-trivial = the run reached publication (rename/link to the "
+        "arbitrary instants of a slowed-down run (the directory must equal the model's at SOME crash point), 2 per 100 "
+        "are re-run under strace and the kernel's view of the directory is compared with the recorder's; initial "
+        "directories include stale part files that are hard links of the destination; bodies may end with seek(0) "
+        "and may be left by an Exception or a BaseException; non-trivial = the run reached publication (rename/link to the "
         "destination) and at least 6 crash points were really executed; distinct = distinct canonical case hash")
 ASSUMPTIONS = [
     "POSIX file-system semantics as modelled in Model/C04_Model.v: rename/link atomically rebind a name, O_CREAT|O_EXCL "
@@ -59,6 +64,10 @@ ENOENT, EEXIST, EIO, ENOSPC, EPERM, EINVAL = 2, 17, 5, 28, 1, 22
 
 class BodyError(Exception):
     pass
+
+
+class BodyAbort(BaseException):
+    """What Ctrl-C / sys.exit() inside the with-block look like: not an Exception subclass."""
 
 
 # ---------------------------------------------------------------------------
@@ -350,7 +359,7 @@ def _drive(fu, cfg, ctx, tmpdir, body, body_exc):
                 f.seek(0)        # rewind after writing (only generated as the last operation of a body)
         ctx.body_idx = None
         if body_exc:
-            raise BodyError()
+            raise (BodyAbort() if cfg.get("abort_kind") == "base" else BodyError())
 
     try:
         api = cfg.get("api", "func")
@@ -372,7 +381,7 @@ def _drive(fu, cfg, ctx, tmpdir, body, body_exc):
                 finally:
                     ctx.body_idx = None
         return ["ok"]
-    except BodyError:
+    except (BodyError, BodyAbort):
         return ["body"]
     except OSError as e:
         return ["os", e.errno if e.errno is not None else 999]
@@ -599,6 +608,8 @@ def strace_check(case):
                 continue
             if name in ("openat", "open") and not re.search(r"O_CREAT|O_WRONLY|O_RDWR|O_TRUNC|O_APPEND", args):
                 continue                 # read-only open
+            if name in ("fsync", "fdatasync") and re.search(r"<[^>]*%s>" % re.escape(key), args):
+                continue                 # syncing the directory itself (not an event of the recorder either)
             kernel.append([_KIND[name], ret >= 0])
         recorded = [[e[0], e[-1] is None] for e in rep["trace"] if e[0] in ("open", "unlink", "rename", "link", "chmod", "fsync")]
         rec_written = sum(len(e[2].encode("latin-1")) for e in rep["trace"] if e[0] == "write" and e[-1] is None)
@@ -836,6 +847,7 @@ def gen_cfg(rng):
         "api": rng.choice(["func", "class", "manual"]),
         "path": rng.choice(["abs", "abs", "rel", "rel2"]),
         "explicit": rng.random() < 0.5,
+        "abort_kind": rng.choice(["exc", "base"]),
     }
 
 
@@ -856,8 +868,43 @@ def gen_init(rng, cfg, want_dest=None, want_part=None):
     return init
 
 
+def grid_cases():
+    """A small complete grid (thorough tier): every flag combination x permissions x destination x part file
+    (absent / stale / hard link of the destination) x body shape x mode, every crash point of each."""
+    bodies = [[], [["w", "hello"]], [["w", "ab"], ["f"], ["w", "line\n"], ["w", "tail"], ["r"]]]
+    for ow in (True, False):
+        for owp in (True, False):
+            for rm in (True, False):
+                for perms in (None, 0o600):
+                    for dest in (False, True):
+                        for part in ("absent", "stale", "link"):
+                            if part == "link" and not dest:
+                                continue
+                            for bi, body in enumerate(bodies):
+                                for text in (False, True):
+                                    init = {}
+                                    if dest:
+                                        init["dest"] = ["OLD", 0o640]
+                                    if part == "stale":
+                                        init["part"] = ["stale part", 0o600]
+                                    elif part == "link":
+                                        init["part"] = list(init["dest"])
+                                        init["partlink"] = True
+                                    cfg = {"overwrite": ow, "overwrite_part": owp, "rm_part_on_exc": rm, "file_perms": perms,
+                                           "text_mode": text, "buffering": -1, "part_file": None, "api": "func",
+                                           "path": "abs", "explicit": True, "abort_kind": "exc"}
+                                    yield {"cfg": cfg, "umask": 0o022, "init": init, "body": body, "body_exc": False,
+                                           "sched": [], "crash": "all", "retry": False, "grid": True}
+
+
 def generate(rng, tier, n):
     i = 0
+    if tier == "thorough":
+        for case in grid_cases():
+            if i >= n:
+                return
+            i += 1
+            yield case
     while i < n:
         cfg = gen_cfg(rng)
         big_budget = (i % 100 == 7)
@@ -931,6 +978,10 @@ def distribution(d, case, obs):
     bump("flags", "ow=%d owp=%d rm=%d" % (cfg["overwrite"], cfg["overwrite_part"], cfg["rm_part_on_exc"]))
     bump("mode", ("text" if cfg["text_mode"] else "bin") + " buf=%s" % cfg.get("buffering", -1))
     bump("api", cfg.get("api", "func") + "/" + cfg.get("path", "abs"))
+    if case.get("grid"):
+        d["grid_cases"] = d.get("grid_cases", 0) + 1
+    if case.get("body_exc"):
+        bump("abort_kind", cfg.get("abort_kind", "exc"))
     bump("perms", str(cfg["file_perms"]))
     bump("init", "dest=%d part=%d%s" % ("dest" in case["init"], "part" in case["init"],
                                         " (hard link)" if is_partlink(case["init"]) else ""))
